@@ -16,6 +16,10 @@ callback / by UncopiedValue is overwritten as soon as the loan ends, and the laz
 accessors (iterator, blob, prefix scan) are consumed after other reads - an accessor that retains
 lent memory returns garbage. Serializer outputs are retained while further values are serialised and
 must stay byte-identical; a concurrent-writers round stores distinct blocks from 8 goroutines.
+Once per run a chain whose first block holds very large values (Sierra program, CASM bytecode,
+calldata and one event payload of 140 000 felts each - above the CBOR library's default array limit)
+goes through the codec round trips and the full sweep on memory and pebblev2, both state backends.
+L1 handler transactions come with a nonce, with a zero nonce and in the legacy nonce-less form.
 """
 import json
 import vlib
@@ -61,7 +65,7 @@ def run(ctx):
     if len({k for k, _, _ in kinds}) < 10 or sizes != {0, 1, 2, 3}:
         raise vlib.Broken("generated behaviours do not cover all ten transaction kinds and block sizes 0..3")
     res = ctx.run_engine(binary, "TestAccessorsReplay",
-                         {"seed": 0, "start": 0, "behaviours": behaviours, "concurrent": True,
+                         {"seed": 0, "start": 0, "behaviours": behaviours, "concurrent": True, "large": True,
                           "backends": ["memory", "pebblev2", "memory-poisoned"]},
                          timeout=3000)
     ctx.absorb(res, "accessors", "TestAccessorsReplay")
